@@ -2,11 +2,14 @@ package main
 
 import (
 	"flag"
+	"go/types"
 	"fmt"
 	"os"
 	"sort"
 	"strings"
 	"time"
+
+	"golang.org/x/tools/go/ssa"
 )
 
 func main() {
@@ -21,6 +24,8 @@ func main() {
 		cmdCheck(os.Args[2:])
 	case "gen":
 		cmdGen(os.Args[2:])
+	case "mods":
+		cmdMods(os.Args[2:])
 	default:
 		fmt.Fprintln(os.Stderr, "unknown command", os.Args[1])
 		os.Exit(2)
@@ -166,5 +171,91 @@ func cmdGen(args []string) {
 	sort.Sort(sort.Reverse(sort.StringSlice(rs)))
 	for _, r := range rs {
 		fmt.Println(r)
+	}
+}
+
+// cmdMods prints the inferred write set of functions, and which callees contribute "*".
+func cmdMods(args []string) {
+	P, err := loadProgram("/repo", []string{"./..."})
+	if err != nil {
+		fmt.Fprintln(os.Stderr, "load:", err)
+		os.Exit(2)
+	}
+	P.loadContracts("/verif/contracts")
+	for _, k := range args {
+		fn := P.funcs[k]
+		if fn == nil {
+			fmt.Println("no function", k)
+			continue
+		}
+		m := P.modSet(fn)
+		fmt.Printf("%s: %d names, star=%v\n", k, len(m), m["*"])
+		if m["*"] {
+			P.explainStar(fn, 0, map[*ssa.Function]bool{})
+		} else {
+			for _, n := range sortedKeys(m) {
+				fmt.Println("   ", n)
+			}
+		}
+	}
+}
+
+func (P *Program) explainStar(fn *ssa.Function, depth int, seen map[*ssa.Function]bool) {
+	if seen[fn] || depth > 8 {
+		return
+	}
+	seen[fn] = true
+	ind := strings.Repeat("  ", depth+1)
+	if fn.Blocks == nil {
+		fmt.Printf("%s%s: no body\n", ind, fn)
+		return
+	}
+	for _, b := range fn.Blocks {
+		for _, in := range b.Instrs {
+			var c *ssa.CallCommon
+			switch x := in.(type) {
+			case *ssa.Call:
+				c = &x.Call
+			case *ssa.Defer:
+				c = &x.Call
+			case *ssa.Go:
+				fmt.Printf("%s%s: go statement\n", ind, fn)
+				continue
+			default:
+				continue
+			}
+			if _, ok := c.Value.(*ssa.Builtin); ok {
+				continue
+			}
+			if c.IsInvoke() {
+				if _, ok := invokeMods(c); ok {
+					continue
+				}
+				iface := c.Value.Type().Underlying().(*types.Interface)
+				impls := P.implementations(iface, c.Method)
+				if len(impls) == 0 {
+					fmt.Printf("%s%s: invoke %s.%s without in-repo implementation\n", ind, fn.Name(), c.Value.Type(), c.Method.Name())
+					continue
+				}
+				for _, im := range impls {
+					if P.modSet(im.fn)["*"] {
+						fmt.Printf("%s%s: invoke %s -> %s is *\n", ind, fn.Name(), c.Method.Name(), im.fn)
+						P.explainStar(im.fn, depth+1, seen)
+					}
+				}
+				continue
+			}
+			callee := c.StaticCallee()
+			if callee == nil {
+				if _, ok := c.Value.(*ssa.MakeClosure); !ok {
+					fmt.Printf("%s%s: call through function value %s\n", ind, fn.Name(), valueName(c.Value))
+				}
+				continue
+			}
+			if P.modSet(callee)["*"] {
+				fmt.Printf("%s%s: calls %s which is *\n", ind, fn.Name(), callee)
+				P.explainStar(callee, depth+1, seen)
+			}
+		}
 	}
 }
